@@ -370,14 +370,31 @@ def random_value(rng, f, classes=None):
     raise ValueError(kind)
 
 
+PADDING_NAMES = ("reserved", "local_use_segment", "system_reserve")
+
+
+def is_padding(f):
+    """spare / blank / reserved areas of a record (content must never influence the result)"""
+    last = f["name"].split(".")[-1].split("~")[0]
+    return synth.is_spare(f) or last.startswith(PADDING_NAMES)
+
+
 def fill_record(rng, rec, values=None, classes=None, skip_prefix=("preamble.",), spare=False):
-    """random admissible content for every field not yet set (spares stay blank unless spare=True)"""
+    """random admissible content for every field not yet set.
+
+    spare: False -> padding areas stay blank; a random.Random -> they are filled from *that* generator (so the
+    same main seed gives the same product with different padding); True -> filled from the main generator"""
     values = dict(values or {})
     for f in synth.fields(rec):
         n = f["name"]
         if n in values or (rec, n) in CONSTRAINED or n.startswith(tuple(skip_prefix)):
             continue
-        if synth.is_spare(f) and not spare:
+        if is_padding(f):
+            if not spare:
+                continue
+            r2 = rng if spare is True else spare
+            v, c = random_value(r2, f)
+            values[n] = v
             continue
         v, c = random_value(rng, f)
         values[n] = v
@@ -433,6 +450,13 @@ def full_leader(rng, n_mp=None, n_att=None, att_len=None, n_ch=None, fac_lens=No
         "fac": [{"length": L, "raw": "".join(rng.choice(INNER) for _ in range(L - 66))} for L in fac_lens],
         "f5": fill_record(rng, "f5", {}, classes, spare=spare),
     }
+    if spare and spare is not True:
+        junk = lambda k: "".join(spare.choice(INNER) for _ in range(k))
+        m["att"]["tail"] = junk(att_len - 16 - 120 * n_att)
+        m["dq"]["blanks1"] = junk(512 - 32 * n_ch)
+        m["dq"]["blanks2"] = junk(534 + (8 - n_ch) * 32)
+        for fac in m["fac"]:
+            fac["blanks"] = junk(50).strip() or "x"
     m["dq"]["head"].pop("number_of_channels", None)
     return m, {"n_mp": n_mp, "n_att": n_att, "att_len": att_len, "n_ch": n_ch, "fac_lens": list(fac_lens),
                "designator": designator, "inst": inst}
